@@ -10,7 +10,7 @@ PID = "C17"
 TIERS = {
     # pair: sample size of the TLC-enumerated pair family (None = all); multi: random palette configs;
     # geo: corpus windows (count, residues per window); cli: runs of clashfinder.main
-    "quick":    dict(mc="MC_Clash_quick.cfg", pair=600, multi=300, geo=(8, 10), cli=(100, 6)),
+    "quick":    dict(mc="MC_Clash_quick.cfg", pair=600, multi=300, geo=(8, 10), cli=(180, 6)),
     "thorough": dict(mc="MC_Clash_thorough.cfg", pair=None, multi=6000, geo=(60, 45), cli=(1500, 12)),
 }
 NEG = [("MC_Clash_neg_zeroocc.cfg", "InvClashSetExact", "AsImplemented occupancy default `(occupancy or 1.0)`: fails ClashSetExact"),
@@ -69,7 +69,7 @@ def build_cases(t, palette, pairs, seed):
     while len(cli_cases) < ncli:
         k += 1
         # ignore-occupancy often (the sums then differ), the restrictive filters less often
-        opt = sum(1 << b for b, p in enumerate((0.7, 0.3, 0.2, 0.1, 0.5)) if rng.random() < p)
+        opt = sum(1 << b for b, p in enumerate((0.7, 0.3, 0.35, 0.1, 0.5)) if rng.random() < p)
         if k % 2 == 0:
             src = clash.corpus_sources(rng, 1, win, scales=(0.7, 0.8, 0.9))[0]
             if " " in "".join(r["chain"] for r in clash.read_corpus(os.path.join(lib.REPO, "tests", src["file"]))):
@@ -77,6 +77,8 @@ def build_cases(t, palette, pairs, seed):
             st, s = clash.corpus_struct(src, palette), {"corpus": src}
         else:
             ab = clash.multi_abstract(rng, palette, dense=(k % 4 == 1))
+            if ab["res"][1]["nuc"] and k % 3 != 0:
+                ab["res"][1]["lig"] = True      # the tool is often run on files with nucleotide ligands
             st, s = clash.materialise(ab, k), {"ab": ab, "shuffle": k}
             names = [(a["r"], a["name"]) for a in st["atoms"]]
             if len(set(names)) != len(names):
